@@ -175,11 +175,26 @@ def load_known(prop):
     return [k for k in data.get('findings', []) if k['property'] == prop]
 
 
+def diff_paths(a, b, prefix=()):
+    """Index paths at which two nested list structures differ (used by known-finding predicates to
+    pin a finding to the exact observation that is wrong)."""
+    if isinstance(a, list) and isinstance(b, list) and len(a) == len(b):
+        out = []
+        for i, (x, y) in enumerate(zip(a, b)):
+            out += diff_paths(x, y, prefix + (i,))
+        return out
+    return [] if a == b and type(a) is type(b) else [prefix]
+
+
 def match_known(known, cond, args, got, exp):
-    ns = dict(cond=cond, args=args, got=got, exp=exp, **(args or {}))
+    got, exp = jnorm(got), jnorm(exp)
+    ns = dict(cond=cond, args=args, got=got, exp=exp, diff=diff_paths(got, exp) if exp is not None else None, **(args or {}))
+    g = {'__builtins__': {'len': len, 'abs': abs, 'any': any, 'all': all, 'isinstance': isinstance, 'str': str,
+                          'int': int, 'min': min, 'max': max, 'list': list, 'tuple': tuple, 'bool': bool, 'sorted': sorted}}
+    g.update(ns)   # one namespace: comprehensions inside the predicate resolve names in globals
     for k in known:
         try:
-            if eval(k['match'], {'__builtins__': {'len': len, 'abs': abs, 'any': any, 'all': all, 'isinstance': isinstance, 'str': str, 'int': int, 'min': min, 'max': max}}, ns):  # noqa: S307
+            if eval(k['match'], g):  # noqa: S307
                 return k
         except Exception:  # noqa: BLE001
             continue
